@@ -120,7 +120,8 @@ def run_model(cases, jobs=1):
     """cases: list of (op, args).  Returns list of results (list of int lists)."""
     if not cases:
         return []
-    jobs = max(1, min(jobs, (len(cases) + 1999) // 2000))
+    size = sum(sum(len(l) for l in a) for _, a in cases)
+    jobs = max(1, min(jobs, max((len(cases) + 1999) // 2000, size // 200000), len(cases)))
     chunks = [cases[i::jobs] for i in range(jobs)]
 
     def work(chunk):
